@@ -364,6 +364,10 @@ pub fn c04_check<const N: usize>(o: &Opts, rep: &mut Report) {
     if N <= 8 {
         crate::faults::destroyed_twice_space::<N>("C04", &lay, o, rep, &|_a| true);
     }
+    // byte buffers: the I/O trait impls move the front position by their own code
+    if o.shard.0 == 0 && N <= 8 {
+        crate::io::u8_twin::<N>("C04", rep);
+    }
 }
 
 pub fn replay_c04<const N: usize>(c: &Case) -> Result<i32, String> {
